@@ -23,6 +23,9 @@ pub enum Class {
     V4Header,
     V4HeaderBadSig,
     V4HeaderUnknownKey,
+    /// an access key the provider does not know, signed with the EMPTY secret - what a request is verified against if the
+    /// provider's denial is replaced by a stand-in secret
+    V4HeaderUnknownKeyEmptySecret,
     /// signed with a registered key's secret while presenting a *spelling variant* of its access key (other case, a proper
     /// prefix, one character more): not a registered key - a provider must look keys up exactly
     V4HeaderKeyOtherCase,
@@ -48,6 +51,7 @@ pub const CLASSES: &[Class] = &[
     Class::V4Header,
     Class::V4HeaderBadSig,
     Class::V4HeaderUnknownKey,
+    Class::V4HeaderUnknownKeyEmptySecret,
     Class::V4HeaderKeyOtherCase,
     Class::V4HeaderKeyPrefix,
     Class::V4HeaderKeySuffixed,
@@ -104,15 +108,15 @@ pub fn dress(base: &sdk::BaseReq, class: Class) -> Option<(Req, Vec<u8>)> {
     let amz_ref: Vec<&str> = amz.iter().map(String::as_str).collect();
     match class {
         Class::Anonymous => {}
-        Class::V4Header | Class::V4HeaderBadSig | Class::V4HeaderUnknownKey | Class::V4HeaderKeyOtherCase | Class::V4HeaderKeyPrefix | Class::V4HeaderKeySuffixed | Class::DuplicatedAuthorization => {
+        Class::V4Header | Class::V4HeaderBadSig | Class::V4HeaderUnknownKey | Class::V4HeaderUnknownKeyEmptySecret | Class::V4HeaderKeyOtherCase | Class::V4HeaderKeyPrefix | Class::V4HeaderKeySuffixed | Class::DuplicatedAuthorization => {
             let scope = match class {
-                Class::V4HeaderUnknownKey => Scope::new("AKIDUNKNOWN000000000", DAY, REGION, "s3"),
+                Class::V4HeaderUnknownKey | Class::V4HeaderUnknownKeyEmptySecret => Scope::new("AKIDUNKNOWN000000000", DAY, REGION, "s3"),
                 Class::V4HeaderKeyOtherCase => Scope::new(&AK.to_ascii_lowercase(), DAY, REGION, "s3"),
                 Class::V4HeaderKeyPrefix => Scope::new(&AK[..AK.len() - 1], DAY, REGION, "s3"),
                 Class::V4HeaderKeySuffixed => Scope::new(&format!("{AK}2"), DAY, REGION, "s3"),
                 _ => scope,
             };
-            let sig = sign_v4_header(&mut r, SK, &scope, DATE, &sha256_hex(&body), &amz_ref);
+            let sig = sign_v4_header(&mut r, if class == Class::V4HeaderUnknownKeyEmptySecret { "" } else { SK }, &scope, DATE, &sha256_hex(&body), &amz_ref);
             if class == Class::V4HeaderBadSig {
                 let a = r.get_header("authorization").unwrap().replace(&sig, &flip_hex(&sig));
                 r.set_header("authorization", &a);
@@ -437,7 +441,7 @@ pub fn run(ctx: &Ctx) -> (Acc, Report) {
     });
     let rep = Report {
         level: "exploration",
-        rule: format!("full product: {n_ops} operations (SDK-encoded base request) + the POST form x 19 request classes (anonymous; valid V4 header/presigned, V2 header/presigned; each with a wrong signature; unknown key; a registered key's secret under a spelling variant of its access key - other case, proper prefix, one character more; a presigned URL one second past its window; duplicated, malformed Authorization) x provider {{none, a recording one, the library's own SimpleAuth}} x access hook {{none, allow, deny, deny-by-operation, deny-in-typed-hook, default re-implemented, check inherited from the trait}} x route {{none, match-all, never, match-all-open, match-all with check_access inherited from the trait}} x host parser {{none, single}}. Oracle: reference monitor over the ordered event log of recording S3Auth / S3Access::check / typed hook / S3Route / backend. Every case is non-trivial; distinct by id."),
+        rule: format!("full product: {n_ops} operations (SDK-encoded base request) + the POST form x 20 request classes (anonymous; valid V4 header/presigned, V2 header/presigned; each with a wrong signature; unknown key, signed with a registered secret and with the empty secret; a registered key's secret under a spelling variant of its access key - other case, proper prefix, one character more; a presigned URL one second past its window; duplicated, malformed Authorization) x provider {{none, a recording one, the library's own SimpleAuth}} x access hook {{none, allow, deny, deny-by-operation, deny-in-typed-hook, default re-implemented, check inherited from the trait}} x route {{none, match-all, never, match-all-open, match-all with check_access inherited from the trait}} x host parser {{none, single}}. Oracle: reference monitor over the ordered event log of recording S3Auth / S3Access::check / typed hook / S3Route / backend. Every case is non-trivial; distinct by id."),
         exhaustive: true,
         extra: json!({"operations": n_ops, "histories": hist_n, "history_requests_executed": hist_steps, "history_rule": "all sequences of length 1..2 (thorough 3) over 25 requests (four signature schemes x two identities x honest / signed with the other identity's secret x scopes, and an anonymous request) on one service instance, single-threaded, fixed order; each verdict and the identity shown = the reference verdict of that request alone"}),
         assumptions: vec![
